@@ -185,6 +185,9 @@ theorem storeForEach_ev (f : Streams → Nat → Streams)
     (h : Evolves P N a s.store) : Evolves P N a (s.storeForEach f).store := by
   unfold Streams.storeForEach; exact storeTryForEach_ev _ (fun s id h => hf s id h) h
 
+macro_rules | `(tactic| ev_step) => `(tactic| with_reducible refine storeTryForEach_ev _ (fun _ _ _ => ?_) ?_)
+macro_rules | `(tactic| ev_step) => `(tactic| with_reducible refine storeForEach_ev _ (fun _ _ _ => ?_) ?_)
+
 theorem tryForEachAcc_ev (f : Nat → Streams → Nat → Streams × Nat × Option PErr)
     (hf : ∀ (acc : Nat) (s : Streams) (id : Nat), Evolves P N a s.store → Evolves P N a (f acc s id).1.store)
     (fuel i len acc : Nat) (h : Evolves P N a s.store) :
@@ -193,9 +196,13 @@ theorem tryForEachAcc_ev (f : Nat → Streams → Nat → Streams × Nat × Opti
   | zero => unfold Streams.tryForEachAcc; exact h
   | succ n ih => unfold Streams.tryForEachAcc; ev
 
+macro_rules | `(tactic| ev_step) => `(tactic| with_reducible refine tryForEachAcc_ev _ (fun _ _ _ _ => ?_) _ _ _ _ ?_)
+
 theorem transition_ev {α : Type} (id : Nat) (f : Streams → Streams × α)
     (hf : Evolves P N a (f s).1.store) : Evolves P N a (s.transition id f).1.store := by
   unfold Streams.transition; ev
+
+macro_rules | `(tactic| ev_step) => `(tactic| with_reducible refine transition_ev _ _ ?_)
 
 theorem decStreamWindow_ev (h : Evolves P N a s.store) (dec acc id : Nat) :
     Evolves P N a (Streams.decStreamWindow dec acc s id).1.store := by
@@ -329,7 +336,8 @@ macro_rules | `(tactic| ev_step) => `(tactic| with_reducible apply recvPollRespo
 
 theorem recvPollInformational_ev (h : Evolves P N a s.store) (id : Nat) (t : String) :
     Evolves P N a (s.recvPollInformational id t).1.store := by
-  unfold Streams.recvPollInformational; ev
+  unfold Streams.recvPollInformational
+  rcases hp : (s.stream id).pendingRecv with _ | ⟨_ | _ | _ | _ | _, rest⟩ <;> dsimp only <;> ev
 macro_rules | `(tactic| ev_step) => `(tactic| with_reducible apply recvPollInformational_ev)
 
 theorem recvGoAway_ev (h : Evolves P N a s.store) (l : Nat) : Evolves P N a (s.recvGoAway l).store := by
@@ -343,9 +351,7 @@ macro_rules | `(tactic| ev_step) => `(tactic| with_reducible apply recvMaybeRese
 
 theorem applyLocalSettings_ev (h : Evolves P N a s.store) (i e : Option Nat) :
     Evolves P N a (s.applyLocalSettings i e).1.store := by
-  unfold Streams.applyLocalSettings
-  ev
-  all_goals (apply storeTryForEach_ev _ _ (by ev); intro s id h; ev)
+  unfold Streams.applyLocalSettings; ev
 macro_rules | `(tactic| ev_step) => `(tactic| with_reducible apply applyLocalSettings_ev)
 
 -- ===================================================================== streams.rs (handle bookkeeping)
